@@ -71,6 +71,14 @@ theorem lookup_label :
     ((by decide +kernel : ∀ e ∈ enumerate T, ∀ v ∈ caseVariants e.row.symbol,
         v ≠ [] ∧ v.all isLetterA = true ∧ findSym T (capitalize v) = some e) e he v hv)
 
+/-- … also behind any run of leading blanks (the label route strips like every other route) -/
+theorem lookup_label_padded :
+    ∀ e ∈ enumerate T, ∀ v ∈ caseVariants e.row.symbol, ∀ (l : List Ch) (d : Ch) (rest : List Ch),
+      l.all pyIsSpace = true → isDigitA d = true → fromString T (l ++ (v ++ d :: rest)) = .ok e := by
+  intro e he v hv l d rest hl hd
+  rw [fromString_left_pad T l _ hl]
+  exact lookup_label e he v hv d rest hd
+
 /-- whatever string is looked up, a successful answer is a genuine table entry:
 nothing is ever "mapped to some element" outside the table -/
 theorem lookup_sound (s : List Ch) (e : Elem) (h : fromString T s = .ok e) :
